@@ -131,11 +131,19 @@ def epoch_inputs(inst):
     return k["hash"] or "sha1", k["K"], k["H"], k["sid"]
 
 
-def judge_installed(ctx, inst, is_server, direction, wit, mac):
+def judge_installed(ctx, inst, is_server, direction, wit, mac, cipher_expected=None):
     """One cipher switch: every installed slot must be the oracle value for
-    the RFC letter of (role, direction)."""
+    the RFC letter of (role, direction), in the size of THAT direction's algorithm."""
     inp = epoch_inputs(inst)
     cipher = inst["name"]
+    if cipher_expected is not None:
+        ctx.count("engine_algorithm_per_direction_checks")
+        if cipher != cipher_expected:
+            ctx.violation("%s %s cipher engine built for another algorithm than the one negotiated for that direction"
+                          % ("server" if is_server else "client", "outbound" if direction == "out" else "inbound"),
+                          "engine for %s, negotiated %s" % (cipher, cipher_expected),
+                          dict(wit, engine=cipher, negotiated=cipher_expected))
+            cipher = cipher_expected  # sizes are judged against the negotiated algorithm
     tapk = inst["tap"]
     if inp is None or cipher not in pb.REF_CIPHERS or tapk is None:
         ctx.count("epochs_not_judged")
@@ -208,9 +216,11 @@ def slots_of(inst):
     return dict(iv=inst["iv"], key=inst["key"], mac_key=inst["mac_key"])
 
 
-def bench_case(ctx, rng, cipher, mac, role, n_epochs):
+def bench_case(ctx, rng, cipher, mac, role, n_epochs, k=0):
     hname = rng.choice(pb.HASHES)
-    b = pb.Bench(rng, cipher, mac, "none", sender_role=role, strict=rng.random() < 0.3, hash_name=hname)
+    rcipher, rmac = pb.draw_reverse(rng, k, BYFAM)  # the reverse direction negotiates its own suite
+    b = pb.Bench(rng, cipher, mac, "none", sender_role=role, strict=rng.random() < 0.3, hash_name=hname,
+                 rev=(rcipher, rmac))
     for _ in range(n_epochs):
         b.rekey()
         b.send(pb.rand_payload(rng, rng.randint(1, 40)))
@@ -218,20 +228,137 @@ def bench_case(ctx, rng, cipher, mac, role, n_epochs):
     rec_rx = pb.vtap.Recorder()
     rx = b.receiver(recorder=rec_rx, klog=klog_rx)
     rx.drain(b.wire())
-    wit = dict(kind="bench", cipher=cipher, mac=mac, sender_role=role, epochs=n_epochs, hash=hname)
+    wit = dict(kind="bench", cipher=cipher, mac=mac, reverse_cipher=rcipher, reverse_mac=rmac, sender_role=role,
+               epochs=n_epochs, hash=hname)
     if rx.delivered != b.messages:
         # C01's subject; here it only means the receiver's keys were not all installed
         ctx.count("bench_streams_not_fully_decoded")
     tx_out = pb.installed_epochs(b.klog, b.rec.snapshot(), "tx", "out")
     tx_in = pb.installed_epochs(b.klog, b.rec.snapshot(), "tx", "in")
     rx_in = pb.installed_epochs(klog_rx, rec_rx.snapshot(), "rx", "in")
-    ctx.count("bench_epochs_captured", len(tx_out) + len(tx_in) + len(rx_in))
+    rx_out = pb.installed_epochs(klog_rx, rec_rx.snapshot(), "rx", "out")
+    ctx.count("bench_epochs_captured", len(tx_out) + len(tx_in) + len(rx_in) + len(rx_out))
+    ctx.count("bench_fwd_%s_rev_%s" % (pb.framing_mode(cipher, mac), pb.framing_mode(rcipher, rmac)))
     srv = role == "server"
-    for lst, is_server, d in ((tx_out, srv, "out"), (tx_in, srv, "in"), (rx_in, not srv, "in")):
+    for lst, is_server, d, c_, m_ in ((tx_out, srv, "out", cipher, mac), (tx_in, srv, "in", rcipher, rmac),
+                                      (rx_in, not srv, "in", cipher, mac), (rx_out, not srv, "out", rcipher, rmac)):
         for inst in lst:
-            judge_installed(ctx, inst, is_server, d, wit, mac)
-    judge_pairing(ctx, [slots_of(x) for x in tx_out], [slots_of(x) for x in rx_in], "bench", wit)
+            judge_installed(ctx, inst, is_server, d, wit, m_, cipher_expected=c_)
+    judge_pairing(ctx, [slots_of(x) for x in tx_out], [slots_of(x) for x in rx_in], "bench forward", wit)
+    judge_pairing(ctx, [slots_of(x) for x in rx_out], [slots_of(x) for x in tx_in], "bench reverse", wit)
     judge_directions(ctx, [slots_of(x) for x in tx_out], [slots_of(x) for x in tx_in], "bench sender", wit)
+    judge_directions(ctx, [slots_of(x) for x in rx_out], [slots_of(x) for x in rx_in], "bench receiver", wit)
+
+
+BYFAM = pb.suites_by_family()
+CIPHER_KINDS = {}
+for _c in sorted(Transport._cipher_info):
+    if _c in pb.REF_CIPHERS:
+        _r = pb.REF_CIPHERS[_c]
+        _kind = "3des" if _r["bs"] == 8 else _r["kind"]
+        CIPHER_KINDS.setdefault(_kind, []).append(_c)
+MAC_FAMS = {"classic": [m for m in sorted(Transport._mac_info) if m in pb.REF_MACS and not pb.REF_MACS[m]["etm"]],
+            "etm": [m for m in sorted(Transport._mac_info) if m in pb.REF_MACS and pb.REF_MACS[m]["etm"]]}
+
+
+def asym_plans():
+    """All ordered pairs of cipher kinds (ctr/cbc/3des/gcm) x all ordered pairs of MAC families."""
+    kinds = [k for k in ("ctr", "cbc", "3des", "gcm") if CIPHER_KINDS.get(k)]
+    fams = [f for f in ("classic", "etm") if MAC_FAMS[f]]
+    return [(a, b_, ma, mb) for a in kinds for b_ in kinds for ma in fams for mb in fams]
+
+
+def asym_handshake_case(ctx, rng, plan, kex):
+    """Real client/server session in which client-to-server and server-to-client negotiate different ciphers and
+    MACs (both peers' KEXINIT carry one name per direction); keys of every direction on both sides are judged
+    on the initial exchange and after a re-key, and data must flow both ways."""
+    from vf import pair as vpair
+
+    ka, kb, fa, fb = plan
+    asym = dict(c2s_cipher=rng.choice(CIPHER_KINDS[ka]), s2c_cipher=rng.choice(CIPHER_KINDS[kb]),
+                c2s_mac=rng.choice(MAC_FAMS[fa]), s2c_mac=rng.choice(MAC_FAMS[fb]))
+    P = vpair.Pair(rng=rng, client_cls=pb.AsymTransport, server_cls=pb.AsymTransport)
+    klog = []
+    pb.instrument(P.tc, klog, "c")
+    pb.instrument(P.ts, klog, "s")
+    for t in (P.tc, P.ts):
+        t.asym = asym
+        t.get_security_options().kex = [kex]
+    fam_c2s = pb.framing_mode(asym["c2s_cipher"], asym["c2s_mac"])
+    fam_s2c = pb.framing_mode(asym["s2c_cipher"], asym["s2c_mac"])
+    wit = dict(kind="asymmetric handshake", kex=kex, **asym)
+    cell = "asym_c2s_%s_s2c_%s" % (fam_c2s, fam_s2c)
+
+    def readerrs():
+        return [x for x in P.rec.snapshot() if x.get("kind") == "readerr" and x.get("exc") != "EOFError"]
+
+    def abandoned(why):
+        errs = readerrs()
+        if errs:
+            ctx.violation("asymmetric session: a transport failed on its peer's packets: %s (c2s %s, s2c %s)"
+                          % (errs[0]["exc"], fam_c2s, fam_s2c),
+                          "read_message raised %s (%s) in an honest session" % (errs[0]["exc"], errs[0].get("text")),
+                          dict(wit, stage=why))
+        else:
+            ctx.count("handshakes_abandoned")
+            ctx.note("handshake_abandoned_reason", "asym %s: %s" % (why, asym))
+
+    def echo(src, dst, n):
+        data = pb.rand_payload(rng, n)
+        src.sendall(data)
+        got = b""
+        while len(got) < len(data):
+            chunk = dst.recv(65536)
+            if not chunk:
+                break
+            got += chunk
+        return got == data
+
+    try:
+        if not P.start(timeout=90):
+            return abandoned("handshake: %r / %r" % (P.client_exc, P.server_exc))
+        if (P.tc.local_cipher, P.tc.remote_cipher, P.tc.local_mac, P.tc.remote_mac) != \
+                (asym["c2s_cipher"], asym["s2c_cipher"], asym["c2s_mac"], asym["s2c_mac"]):
+            ctx.count("asym_negotiation_not_as_planned")  # negotiation itself is C05's subject
+            return
+        P.auth()
+        cc, sc = P.session(timeout=60)
+        cc.settimeout(60)
+        sc.settimeout(60)
+        ok = echo(cc, sc, rng.choice([1, 33, 700, 9000])) and echo(sc, cc, rng.choice([1, 33, 700, 9000]))
+        (P.tc if rng.random() < 0.5 else P.ts).renegotiate_keys()
+        ok = ok and echo(cc, sc, rng.choice([1, 33, 700])) and echo(sc, cc, rng.choice([1, 33, 700]))
+        if not ok:
+            errs = readerrs()
+            ctx.violation("asymmetric session does not carry the data sent (c2s %s, s2c %s)" % (fam_c2s, fam_s2c),
+                          "channel data differed or the stream ended early" + (": %s" % errs[0]["exc"] if errs else ""), wit)
+            return
+        ctx.count("asym_sessions_carried_data_both_ways")
+
+        def captured():
+            ev = P.rec.snapshot()
+            return [pb.installed_epochs(klog, ev, s_, d) for s_ in "cs" for d in ("out", "in")]
+
+        if not vpair.wait_for(lambda: all(len(x) >= 2 for x in captured()), timeout=60):
+            return abandoned("key capture incomplete %s" % [len(x) for x in captured()])
+        c_out, c_in, s_out, s_in = captured()
+        ctx.count("asym_handshakes_observed")
+        ctx.count(cell)
+        ctx.count("asym_cipher_%s_to_%s" % (ka, kb))
+        ctx.count("asym_epochs_captured", len(c_out) + len(c_in) + len(s_out) + len(s_in))
+        for lst, is_server, d, cn, mn in ((c_out, False, "out", "c2s_cipher", "c2s_mac"), (c_in, False, "in", "s2c_cipher", "s2c_mac"),
+                                          (s_out, True, "out", "s2c_cipher", "s2c_mac"), (s_in, True, "in", "c2s_cipher", "c2s_mac")):
+            for inst in lst:
+                judge_installed(ctx, inst, is_server, d, wit, asym[mn], cipher_expected=asym[cn])
+                ctx.count("asym_installed_epochs_judged")
+        judge_pairing(ctx, [slots_of(x) for x in c_out], [slots_of(x) for x in s_in], "client->server", wit)
+        judge_pairing(ctx, [slots_of(x) for x in s_out], [slots_of(x) for x in c_in], "server->client", wit)
+        judge_directions(ctx, [slots_of(x) for x in c_out], [slots_of(x) for x in c_in], "client", wit)
+        judge_directions(ctx, [slots_of(x) for x in s_out], [slots_of(x) for x in s_in], "server", wit)
+    except Exception as e:
+        abandoned("harness: %r" % (e,))
+    finally:
+        P.close()
 
 
 KEXES = ["curve25519-sha256@libssh.org", "ecdh-sha2-nistp256", "ecdh-sha2-nistp384", "ecdh-sha2-nistp521",
@@ -313,7 +440,7 @@ def run(ctx):
                 ctx.case(("bench", c, m, role, ne, rep, k), sample=dict(kind="bench", cipher=c, mac=m, role=role,
                                                                          epochs=ne) if k < 12 and rep == 0 else None)
                 try:
-                    bench_case(ctx, rng, c, m, role, ne)
+                    bench_case(ctx, rng, c, m, role, ne, k=k // ctx.nshards + rep)
                 except Exception as e:
                     ctx.violation("key activation failed: %s" % core.exc_signature(e), repr(e),
                                   dict(cipher=c, mac=m, role=role))
@@ -332,6 +459,25 @@ def run(ctx):
             ctx.case(("hs", c, m, kex, rk, rep), sample=dict(kind="handshake", cipher=c, mac=m, kex=kex, rekey=rk)
                      if k < 20 and rep == 0 else None)
             handshake_case(ctx, rng, c, m, kex, rk)
+    # (d) real sessions with a different cipher / MAC per direction
+    plans = asym_plans()
+    k = 0
+    for rep in range(ctx.pick(1, 4)):
+        for plan in plans:
+            k += 1
+            if not ctx.mine(k):
+                continue
+            kex = rng.choice(kexes)
+            ctx.case(("asym", plan, kex, rep, k), sample=dict(kind="asymmetric handshake", c2s_cipher_kind=plan[0],
+                                                             s2c_cipher_kind=plan[1], c2s_mac_family=plan[2],
+                                                             s2c_mac_family=plan[3], kex=kex) if k < 20 and rep == 0 else None)
+            asym_handshake_case(ctx, rng, plan, kex)
+    ctx.require("asym_handshakes_observed", 32)
+    ctx.require("asym_sessions_carried_data_both_ways", 32)
+    for fa in pb.FAMILIES:
+        for fb in pb.FAMILIES:
+            ctx.require("asym_c2s_%s_s2c_%s" % (fa, fb), 2)
+            ctx.require("bench_fwd_%s_rev_%s" % (fa, fb), 3)
     ctx.require("compute_key_contract_evaluations", 20000)
     ctx.require("installed_slots_compared", 1500)
     ctx.require("peer_epochs_compared", 300)
